@@ -11,7 +11,8 @@
     every formula, support and count: the returned projections are pairwise
     different, each is the projection of a model, their number is min(count, N)
     and when the loop stops early all N were returned.
-    [C02_iterate_compiled]: both together on a compiled F1 design. *)
+    [C02_iterate_compiled]: both together on a compiled F1 design, for every
+    support (the samplers use 1..variables_per_sample). *)
 From Coq Require Import ZArith List Bool.
 Import ListNotations.
 From SP Require Import Base.Sat Design.Flat Design.Sem.
@@ -56,9 +57,8 @@ Theorem C02_iterate_compiled :
   forall (solve : cnf -> option asg),
     (forall f s, solve f = Some s -> sat s f = true) ->
     (forall f, solve f = None -> forall s, sat s f = false) ->
-    forall (fb : flat) (b : backend) (ok : bool) (n' : Z) (final : cnf) (count : nat),
+    forall (fb : flat) (b : backend) (ok : bool) (n' : Z) (final : cnf) (count support : nat),
       in_f1 fb = true -> (0 < T fb)%nat -> compile fb = COk b -> full_cnf b = (ok, n', final) ->
-      let support := (T fb * vpt fb)%nat in
       let r := iterate solve count final support in
       NoDup r /\
       (forall sol, In sol r ->
